@@ -100,6 +100,44 @@ impl<'a> TokenStream<'a> {
         r.table == acc.table,
 //@end
 
+
+// ---------- AnalyzedSource::update as a whole: what happens around the fold
+/// the document after the steps of all changes, in order (each step is `update_step` above); table building and semantic analysis (nom-free, but HashMap and trait recursion: units `decls`, `rules`)
+pub uninterp spec fn folded(src: AnalyzedSource, changes: Seq<TextChange>) -> AnalyzedSource;
+pub uninterp spec fn built(ast: Program) -> (Program, GlobalTable);
+pub uninterp spec fn analyzed(ast: Program, table: GlobalTable) -> Program;
+//~assume (R13) the fold applies `update_step` to the changes in order; table::build / table::analyze are functions of their arguments (named `built`, `analyzed`; their rules are proved in units `decls` and `rules`)
+#[verifier::external_body]
+pub fn fold_changes(src: AnalyzedSource, changes: Vec<TextChange>) -> (r: AnalyzedSource)
+    ensures r == folded(src, changes@),
+{ unimplemented!() }
+pub mod table {
+    use super::*;
+    #[verifier::external_body]
+    pub fn build(program: &mut Program) -> (t: GlobalTable)
+        ensures (*final(program), t) == built(*old(program)),
+    { unimplemented!() }
+    #[verifier::external_body]
+    pub fn analyze(program: &mut Program, table: &GlobalTable)
+        ensures *final(program) == analyzed(*old(program), *table),
+    { unimplemented!() }
+}
+/// "No edit history may leave stale, missing, duplicated or misplaced information behind": a tree that was not re-parsed still carries its build and
+/// semantic diagnostics, so building and analysing it again would double them — an update without changes must leave the document as it is (D20)
+pub open spec fn update_result(src: AnalyzedSource, changes: Seq<TextChange>) -> AnalyzedSource {
+    if changes.len() == 0 { src } else {
+        let f = folded(src, changes);
+        AnalyzedSource { text: f.text, tokens: f.tokens, ast: analyzed(built(f.ast).0, built(f.ast).1), table: built(f.ast).1 }
+    }
+}
+//@extract spl_frontend/src/lib.rs :: impl AnalyzedSource :: fn update
+//@ rewrite fold_changes
+//@ ret r
+//@ sig
+        ensures
+            changes@.len() == 0 ==> r == self, //# AnalyzedSource::update::without_changes_nothing_is_analysed_again
+            r == update_result(self, changes@), //# AnalyzedSource::update::fold_then_build_then_analyse
+//@end
 pub proof fn witness_docchange() {
     let p = Position { line: 0, character: 0 };
     assert(pos_le(p, p));
